@@ -25,7 +25,7 @@ def r1_checks_dominate(rule, root=None):
     for path, ty, tr, chk in EVALS:
         fn = A.find_fn(path, "eval", self_ty=ty, trait=tr, root=root)
         first = fn["body"]["stmts"][0]
-        t = A.unparse(first).replace(" ", "")
+        t = A.ftxt(first)
         if t == "tape.vars().%s(vars)?;" % chk:
             rule.ok("%s::eval checks its arguments first and propagates the error" % ty, file=path, line=first["ln"])
         else:
